@@ -96,7 +96,29 @@ func (g *Gen) OlvmStory(id string, blocks int) *Scenario {
 			}
 		}
 	}
+	// in one block: a request of an EVM account that is refused when it is executed, a native payment to that
+	// account, and a valid request of the same account - what the refused request left in memory must not reach the third
+	sandwich := 0
+	if g.R.Intn(2) == 0 && start+1 < blocks {
+		sandwich = g.rng(start, blocks-1)
+	}
 	for h := start; h <= blocks; h++ {
+		if h == sandwich {
+			f := g.pick(eoas)
+			n := nonce[f]
+			switch g.R.Intn(3) {
+			case 0:
+				add(h, A{"from": f, "to": anyone(), "amt": g.rng(0, 900), "nonce": n + g.rng(1, 3), "data": ""}, "honest", "nonce:gap", 120000, 1, nil, "")
+			case 1:
+				add(h, A{"from": f, "to": anyone(), "amt": g.G.Balance + int64(g.rng(1, 1000)), "nonce": n, "data": ""}, "direct", "amt:over-balance", 120000, 1, nil, "")
+			default:
+				add(h, A{"from": f, "to": anyone(), "amt": 1, "nonce": n, "data": ""}, "direct", "gas:unpayable", 4000000, 10, nil, "")
+			}
+			g.curH = int64(h)
+			evs = append(evs, ev{h, STx{Req: TxReq{Kind: "SEND", A: A{"from": g.pick(natives), "to": f, "amt": g.rng(100, 3000)}}, Path: "honest"}})
+			add(h, A{"from": f, "to": anyone(), "amt": g.rng(0, 900), "nonce": n, "data": ""}, "honest", "", 120000, 1, nil, "")
+			nonce[f]++
+		}
 		for k := g.R.Intn(4); k > 0; k-- {
 			f := g.pick(eoas)
 			n := nonce[f]
